@@ -333,6 +333,23 @@ def model_matches(case, impl, model):
             if sep and k.decode(errors="replace") == fld and (v == val or (fld == "Range" and val in v.split(b"-", 1))):
                 return True
         return False
+    # each `?` stands for a run of characters other than , | ] - (a linear scan first: the texts hold values of thousands of bytes, and
+    # compiling a regular expression of that length per case made the thorough tier take 40 minutes)
+    segs = model.split("?")
+    bad = set(",|]-")
+    if impl.startswith(segs[0]):
+        pos, ok = len(segs[0]), True
+        for i, seg in enumerate(segs[1:], 1):
+            last = i == len(segs) - 1
+            j = (len(impl) - len(seg) if impl.endswith(seg) else -1) if last else impl.find(seg, pos)
+            if j < pos or any(ch in bad for ch in impl[pos:j]):
+                ok = False
+                break
+            pos = j + len(seg)
+        if ok and (len(segs) == 1 and pos == len(impl) or len(segs) > 1):
+            return True
+    if len(model) > 4000:
+        return False
     rx = "".join(r"[^,|\]\-]*" if c == "?" else re.escape(c) for c in model)
     return re.fullmatch(rx, impl) is not None
 
